@@ -6,7 +6,7 @@ import vlib
 from checks import common, handler_common as hc
 
 PROP = "C10"
-FAMILIES = "events,events2,termteval".split(",")
+FAMILIES = "events2,termteval".split(",")
 
 
 def run(tier, seed, replay, keep):
